@@ -305,17 +305,18 @@ def solve_projection_onto_manifold_quasi_newton(
             during the iteration.
     """
     mu = np.zeros_like(state.pos)
-    jacob_constr_prev = system.jacob_constr(state_prev)
-    # Use absolute value of dt and adjust for sign of dt in mom update below
-    dh2_flow_pos_dmom, dh2_flow_mom_dmom = system.dh2_flow_dmom(
-        state_prev,
-        abs(time_step),
-    )
-    inv_jacob_constr_inner_product = system.jacob_constr_inner_product(
-        jacob_constr_prev,
-        dh2_flow_pos_dmom,
-    ).inv
+    i = 0
     try:
+        jacob_constr_prev = system.jacob_constr(state_prev)
+        # Use absolute value of dt and adjust for sign of dt in mom update below
+        dh2_flow_pos_dmom, dh2_flow_mom_dmom = system.dh2_flow_dmom(
+            state_prev,
+            abs(time_step),
+        )
+        inv_jacob_constr_inner_product = system.jacob_constr_inner_product(
+            jacob_constr_prev,
+            dh2_flow_pos_dmom,
+        ).inv
         for i in range(max_iters):
             constr = system.constr(state)
             error = norm(constr)
@@ -427,13 +428,14 @@ def solve_projection_onto_manifold_newton(
             during the iteration.
     """
     mu = np.zeros_like(state.pos)
-    jacob_constr_prev = system.jacob_constr(state_prev)
-    # Use absolute value of dt and adjust for sign of dt in mom update below
-    dh2_flow_pos_dmom, dh2_flow_mom_dmom = system.dh2_flow_dmom(
-        state_prev,
-        abs(time_step),
-    )
+    i = 0
     try:
+        jacob_constr_prev = system.jacob_constr(state_prev)
+        # Use absolute value of dt and adjust for sign of dt in mom update below
+        dh2_flow_pos_dmom, dh2_flow_mom_dmom = system.dh2_flow_dmom(
+            state_prev,
+            abs(time_step),
+        )
         for i in range(max_iters):
             jacob_constr = system.jacob_constr(state)
             constr = system.constr(state)
@@ -561,12 +563,16 @@ def solve_projection_onto_manifold_newton_with_line_search(
             during the iteration.
     """
     mu = np.zeros_like(state.pos)
-    jacob_constr_prev = system.jacob_constr(state_prev)
-    # Use absolute value of dt and adjust for sign of dt in mom update below
-    dh2_flow_pos_dmom, dh2_flow_mom_dmom = system.dh2_flow_dmom(
-        state_prev,
-        abs(time_step),
-    )
+    try:
+        jacob_constr_prev = system.jacob_constr(state_prev)
+        # Use absolute value of dt and adjust for sign of dt in mom update below
+        dh2_flow_pos_dmom, dh2_flow_mom_dmom = system.dh2_flow_dmom(
+            state_prev,
+            abs(time_step),
+        )
+    except (ValueError, LinAlgError) as e:
+        msg = f"{type(e)} before first iteration of Newton solver ({e})."
+        raise ConvergenceError(msg) from e
     # Initialize with dummy values to avoid undefined name linter errors
     delta_pos, step_size = None, None
     for i in range(max_iters):
